@@ -357,6 +357,11 @@ fn exec_inner(src: &Dyn, objs: &[&Dyn], kind: &OpKind, ctx: &ExecCtx) -> Answer 
     }
     OpKind::Stream { columns, abort_at } => do_stream(src, *columns, *abort_at, ctx),
     OpKind::Hash => Answer::Hash(fx_hash(src)),
+    OpKind::UpdateHash => {
+      let mut h = FxHasher::default();
+      src.update_hash(&mut h);
+      Answer::Hash(h.finish())
+    }
     OpKind::Eq { other } => Answer::Bool(src == objs[*other]),
     OpKind::EqClone => {
       let c: Box<dyn Source> = dyn_clone::clone_box(src);
